@@ -5,7 +5,7 @@ sys.path.insert(0, os.path.dirname(os.path.abspath(__file__)))
 import check, props
 
 fam, tier = sys.argv[1], sys.argv[2]
-prop = sys.argv[3] if len(sys.argv) > 3 else {"binding": "C15", "lifecycle": "C09", "money": "C02", "params": "C10", "restart": "C10", "react": "C09", "collateral": "C04", "two": "C02"}[fam]
+prop = sys.argv[3] if len(sys.argv) > 3 else {"binding": "C15", "lifecycle": "C09", "money": "C02", "params": "C10", "restart": "C10", "react": "C09", "react2": "C09", "collateral": "C04", "two": "C02"}[fam]
 work = os.path.join(check.VERIF, "work", "measure-%d" % os.getpid())
 os.makedirs(work, exist_ok=True)
 try:
